@@ -8,7 +8,7 @@
 #include <dirent.h>
 #include <sys/wait.h>
 
-typedef struct Src { char name[48]; char *text; bool multi; bool bad; bool example; } Src;
+typedef struct Src { char name[48]; char *text; bool multi; bool bad; bool example; bool rel; } Src;
 static Src srcs[160]; static int nsrcs;
 static char *slurp_text(const char *p) {
     FILE *f = __real_fopen(p, "rb"); if (!f) return NULL;
@@ -38,6 +38,7 @@ static void srcs_load(void) {
         closedir(D);
     }
     Src *s = &srcs[nsrcs++]; memset(s, 0, sizeof *s); strcpy(s->name, "multi"); s->multi = true;
+    s = &srcs[nsrcs++]; memset(s, 0, sizeof *s); strcpy(s->name, "multi_rel"); s->multi = true; s->rel = true;   /* copies at two absolute locations, relative command */
     /* a program whose code section outgrows every initial buffer of the compiler (hundreds of functions) */
     { Buf b = {0};
       for (int i = 0; i < 300; i++) buf_printf(&b, "fn f%d(x: int) -> int {\n    let y: int = (+ (* x %d) %d)\n    if (> y %d) { return (- y %d) }\n    return (+ y (str_length \"s%d\"))\n}\nshadow f%d { assert (== 1 1) }\n", i, i + 2, i * 7, i * 3, i, i, i);
@@ -122,6 +123,7 @@ static void stack_fill(int junk) {
     for (size_t i = 0; i < sizeof pad; i++) pad[i] = (char)junk;
     (void)pad[17];
 }
+int __real_chdir(const char *);
 static void *g_prefill_arg;
 static void compile_once(EPlan *P, Cfg *c, uint64_t seed, Outs *o) {
     srcs_load();
@@ -134,7 +136,13 @@ static void compile_once(EPlan *P, Cfg *c, uint64_t seed, Outs *o) {
     sim_system_log.len = 0;
     char input[300], inabs[300];
     const char *cwd = CWDS[c->cwd % 4];
-    if (s->multi) {
+    if (s->rel) {
+        /* the same tree at two different absolute locations; the command line is identical and relative */
+        static const char *loc[] = { "/verif/build/c19/a/multi", "/verif/build/c19/b/some/deeper/place/multi" };
+        cwd = loc[(c->cwd + c->pathstyle) % 2];
+        if (__real_chdir(cwd) != 0) return;
+        snprintf(input, sizeof input, "main.nano"); snprintf(inabs, sizeof inabs, "%s/main.nano", cwd);
+    } else if (s->multi) {
         /* real, read-only source tree; spelling varies */
         const char *sp[] = { "/verif/corpus19/multi/main.nano", "/verif/corpus19/./multi/main.nano", "/verif/corpus19/multi/../multi/main.nano", "/verif//corpus19/multi/main.nano" };
         snprintf(input, sizeof input, "%s", sp[c->pathstyle % 4]); snprintf(inabs, sizeof inabs, "%s", sp[0]);
@@ -184,7 +192,7 @@ static void compile_once(EPlan *P, Cfg *c, uint64_t seed, Outs *o) {
     { uint64_t h = 1469598103934665603ull; Buf *raw[3] = { &o->genc, &o->tmpc, &o->nvm };
       for (int i = 0; i < 3; i++) for (size_t k = 0; k < raw[i]->len; k++) { h ^= raw[i]->d[k]; h *= 1099511628211ull; }
       o->rawhash = h; }
-    if (s->multi) {
+    if (s->multi && !s->rel) {
         /* the path of an imported module is embedded as spelled (module introspection): normalised here so that any
          * OTHER difference is still seen; the embedding itself is reported separately (known finding) */
         static const char *dsp[] = { "/verif/corpus19/./multi", "/verif/corpus19/multi/../multi", "/verif//corpus19/multi" };
